@@ -486,6 +486,12 @@ func checkC01(c *Ctx, r *Report) {
 	// anything else) are clauses of this property; their rule sets are run as part of it
 	r.shareWhole(c, checkC03)
 	r.shareWhole(c, checkC09)
+
+	// ---- (6) what is hashed is what was exchanged: the fields of RAKP Message 2 that go into the
+	// transcripts (BMC random, GUID, echoed session ID) are the wire bytes in wire order (layout
+	// shared with C07)
+	r.Rule("rakp2-fields-on-the-wire", "RAKP Message 2 is decoded into the specified bytes, in wire order", 4)
+	compareSpec(c, r, specsFor(responseSpecs, "RAKPMessage2", "OpenSessionRsp", "RAKPMessage4"), "field", nil)
 }
 
 func keysOf2(m map[[2]string]bool) [][2]string {
